@@ -4,12 +4,12 @@ From SC Require Import Lib.Prelude Lib.Int Lib.Host Model.Rwa Model.RwaComplianc
 
 Definition ex_cfg : hostcfg := default_cfg 6312000.
 Definition ex_univ : list addr := [0; 1; 2; 3]%N.
-Definition ex_orc : oracle := mkOracle ex_univ true true [(0, 1)]%N.
+Definition ex_orc : addr -> oracle := fun _ => mkOracle ex_univ true true [(0, 1)]%N.
 Definition by3 (o : op) : call := mkCall o [3%N] ex_orc.
 
 (* a reachable state: 0 holds 100 of which 80 are frozen and is address-frozen, 1 holds 40 / 15 frozen *)
 Definition ex_history : list call :=
-  [ by3 (SetCompliance 3%N); by3 (SetIdentityVerifier 3%N);
+  [ by3 (SetCompliance 50%N 3%N); by3 (SetIdentityVerifier 60%N 3%N);
     by3 (Mint 0%N 100 3%N); by3 (Mint 1%N 40 3%N);
     by3 (Freeze 0%N 80 3%N); by3 (Freeze 1%N 15 3%N);
     by3 (SetAddressFrozen 0%N true 3%N) ].
@@ -40,15 +40,15 @@ Definition on_last (f : item -> item) (l : list item) : list item :=
 Definition tamper (f : obs -> obs) (t : trace) : trace :=
   map_items (on_last (fun it => I (it_call it) (it_out it) (f (it_obs it)))) t.
 Definition set_accts (l : list acct) (o : obs) : obs :=
-  mkObs (ob_paused o) (ob_supply o) l (ob_allow o) (ob_idv o) (ob_cmp o) (ob_cmp_set o) (ob_idv_set o).
+  mkObs (ob_paused o) (ob_supply o) l (ob_allow o) (ob_idv o) (ob_cmp o) (ob_cmp_at o) (ob_idv_at o) (ob_cmp_from o) (ob_idv_from o).
 Definition set_cmp (l : list cev) (o : obs) : obs :=
-  mkObs (ob_paused o) (ob_supply o) (ob_accts o) (ob_allow o) (ob_idv o) l (ob_cmp_set o) (ob_idv_set o).
+  mkObs (ob_paused o) (ob_supply o) (ob_accts o) (ob_allow o) (ob_idv o) l (ob_cmp_at o) (ob_idv_at o) (ob_cmp_from o) (ob_idv_from o).
 Definition set_out (r : res ret) (t : trace) : trace :=
   map_items (on_last (fun it => I (it_call it) r (it_obs it))) t.
 Definition set_call (c : call) (t : trace) : trace :=
   map_items (on_last (fun it => I c (it_out it) (it_obs it))) t.
 Definition set_allow (l : list Z) (o : obs) : obs :=
-  mkObs (ob_paused o) (ob_supply o) (ob_accts o) l (ob_idv o) (ob_cmp o) (ob_cmp_set o) (ob_idv_set o).
+  mkObs (ob_paused o) (ob_supply o) (ob_accts o) l (ob_idv o) (ob_cmp o) (ob_cmp_at o) (ob_idv_at o) (ob_cmp_from o) (ob_idv_from o).
 
 (* ---- compliance layer ---- *)
 Definition cex_cfg : ccfg := Build_ccfg 20.
@@ -87,10 +87,19 @@ Definition iset_out (r : res iret) (t : trace) : trace :=
   | IdentityTrace t => mkITrace (map (fun it => II (ii_call it) r (ii_log it)) (it_items t))
   | x => x
   end.
-Definition set_links (a b : bool) (o : obs) : obs :=
-  mkObs (ob_paused o) (ob_supply o) (ob_accts o) (ob_allow o) (ob_idv o) (ob_cmp o) a b.
+Definition set_links (a b : option addr) (o : obs) : obs :=
+  mkObs (ob_paused o) (ob_supply o) (ob_accts o) (ob_allow o) (ob_idv o) (ob_cmp o) a b (ob_cmp_from o) (ob_idv_from o).
+Definition set_from (a b : option addr) (o : obs) : obs :=
+  mkObs (ob_paused o) (ob_supply o) (ob_accts o) (ob_allow o) (ob_idv o) (ob_cmp o) (ob_cmp_at o) (ob_idv_at o) a b.
+Definition set_supply_obs (v : Z) (o : obs) : obs :=
+  mkObs (ob_paused o) v (ob_accts o) (ob_allow o) (ob_idv o) (ob_cmp o) (ob_cmp_at o) (ob_idv_at o) (ob_cmp_from o) (ob_idv_from o).
+(* tamper with the observation of the k-th item from the end (0 = last) *)
+Definition on_nth_last (k : nat) (f : item -> item) (l : list item) : list item :=
+  rev (let r := rev l in firstn k r ++ match skipn k r with [] => [] | it :: r' => f it :: r' end).
+Definition tamper_at (k : nat) (f : obs -> obs) (t : trace) : trace :=
+  map_items (on_nth_last k (fun it => I (it_call it) (it_out it) (f (it_obs it)))) t.
 Definition set_paused_obs (b : bool) (o : obs) : obs :=
-  mkObs b (ob_supply o) (ob_accts o) (ob_allow o) (ob_idv o) (ob_cmp o) (ob_cmp_set o) (ob_idv_set o).
+  mkObs b (ob_supply o) (ob_accts o) (ob_allow o) (ob_idv o) (ob_cmp o) (ob_cmp_at o) (ob_idv_at o) (ob_cmp_from o) (ob_idv_from o).
 Definition cset_obs (o : cobs) (t : trace) : trace :=
   cmap_items (con_last (fun it => CI (ci_call it) (ci_out it) o)) t.
 
@@ -102,7 +111,7 @@ Definition sx_world (cl0 : list claim) : iworld :=
   mkIW [(0, 30); (1, 31)]%N [(1, [40%N])] [(30%N, cl0); (31%N, [good_claim 40%N 1])] [].
 Definition sx_w : iworld := sx_world [good_claim 40%N 1].
 Definition sx_history : list scall :=
-  [ STok (SetCompliance 3%N) [3%N] [] sx_w; STok (SetIdentityVerifier 3%N) [3%N] [] sx_w;
+  [ STok (SetCompliance 50%N 3%N) [3%N] [] sx_w; STok (SetIdentityVerifier 60%N 3%N) [3%N] [] sx_w;
     SCmp (mkCC (CAddModule HCanTransfer 21%N 3%N) [3%N] []); SCmp (mkCC (CAddModule HCanTransfer 20%N 3%N) [3%N] []);
     SCmp (mkCC (CAddModule HTransferred 22%N 3%N) [3%N] []); SCmp (mkCC (CBind sx_tok 3%N) [3%N] []);
     STok (Mint 0%N 100 3%N) [3%N] [] sx_w ].
@@ -122,3 +131,5 @@ Definition sgraft (good : trace) (t : trace) : trace :=
                     end
   | _ => t
   end.
+Definition sset_tok_obs (f : obs -> obs) (t : trace) : trace :=
+  sset_last (fun it => SI (si_call it) (si_out it) (mkSObs (f (so_tok (si_obs it))) (so_cmp (si_obs it)))) t.
